@@ -15,7 +15,7 @@ THETAS = {
     'quick': {
         'clayton': [0.05, 0.5, 1.0, 2.0, 4.0, 8.0],
         'gumbel': [1.0, 1.01, 1.25, 1.5, 2.0, 3.0, 5.0],
-        'frank': [-18.2, -10.0, -5.74, -3.0, -1.0, -0.1, -0.01, 0.01, 0.1, 1.0, 3.0, 5.74, 10.0, 18.2],
+        'frank': [-18.2, -10.0, -5.74, -3.0, -1.0, -0.1, -0.01, -5e-4, -1e-4, 1e-4, 5e-4, 0.01, 0.1, 1.0, 3.0, 5.74, 10.0, 18.2],
     },
     'thorough': {
         'clayton': sorted({1e-3, 0.01, 0.05, 0.1, 0.25, 0.5, 0.75, 1.0, 1.5, 2.0, 3.0, 4.0, 5.0, 6.0, 7.0, 8.0} |
@@ -23,7 +23,7 @@ THETAS = {
         'gumbel': sorted({1.0, 1.001, 1.01, 1.05, 1.1, 1.25, 1.5, 1.75, 2.0, 2.5, 3.0, 3.5, 4.0, 4.5, 4.9, 5.0} |
                          {round(1 + 0.125 * i, 3) for i in range(1, 33)} | {1.0001, 1.02, 4.99}),
         'frank': sorted([s * t for s in (-1, 1) for t in
-                         (1e-3, 0.01, 0.05, 0.1, 0.25, 0.5, 0.75, 1.0, 1.5, 2.0, 2.5, 3.0, 3.5, 4.0, 5.0, 5.74, 6.5, 7.0,
+                         (1e-4, 5e-4, 1e-3, 0.01, 0.05, 0.1, 0.25, 0.5, 0.75, 1.0, 1.5, 2.0, 2.5, 3.0, 3.5, 4.0, 5.0, 5.74, 6.5, 7.0,
                           8.0, 8.5, 9.0, 10.0, 11.0, 12.0, 13.0, 14.0, 15.0, 16.0, 17.0, 18.0, 18.2)]),
     },
 }
@@ -141,6 +141,10 @@ def ranks_to_unit(r, mapping):
     k = int(r.max()) + 1
     if mapping == 'open':
         return (r + 1) / (k + 1)
+    if mapping == 'tiny-low':        # k distinct values inside [0, 1e-8): all within float32-eps of 0
+        return r * 1e-9
+    if mapping == 'tiny-high':       # k distinct values inside (1 - 1e-8, 1]
+        return 1.0 - (k - 1 - r) * 1e-9
     if k == 1:
         return np.full(len(r), 0.5)
     return r / (k - 1)
@@ -148,6 +152,8 @@ def ranks_to_unit(r, mapping):
 
 def pattern_array(n, idx, mapping):
     u, v = rank_patterns(n)[idx]
+    if mapping == 'tiny':
+        return np.column_stack([ranks_to_unit(u, 'tiny-low'), ranks_to_unit(v, 'tiny-high')])
     return np.column_stack([ranks_to_unit(u, mapping), ranks_to_unit(v, mapping)])
 
 
